@@ -3,6 +3,7 @@ use crate::report::{self, Acc, CheckMeta};
 use crate::sc;
 use crate::sa_checks;
 use crate::sa_meta;
+use crate::sb_checks;
 use crate::zobrist::ZobristHasher;
 use serde_json::{json, Map, Value};
 
@@ -168,8 +169,156 @@ pub fn run_meta_check(id: &str, tier: &str, seed: u64) -> i32 {
     report::finish_check(&meta, &acc, t0.elapsed().as_secs_f64(), extra)
 }
 
+fn real_stub_sb() -> Value {
+    json!({
+        "real": ["engine::get_best_move", "alpha_beta_search", "quiesce", "send_search_info", "Search", "DrawTable", "generate_moves", "is_check", "get_evaluation", "uci::play_out_position (to build board and repetition record)", "std::sync::mpsc (wrapped)"],
+        "stub": ["Instant (scripted-expiry clock: queries 0..k-1 in time, k.. out of time)", "stdout (captured)", "the I/O thread (the harness holds the Receiver)"],
+        "oracle": ["reference run with an unlimited clock", "referee", "plain negamax over the engine's own generator/evaluation (C12)", "referee AND/OR mate solver (C11)"]
+    })
+}
+
+pub fn run_sb_check(id: &str, tier: &str, seed: u64) -> i32 {
+    let t0 = std::time::Instant::now();
+    let quick = tier == "quick";
+    let (mut acc, runs): (Acc, u64) = match id {
+        "C07" | "C18" => {
+            // most positions at D = 2 (cheap, exhaustive), some at D = 3 (D = 4 in thorough: null move active)
+            let (n2, n3, n4) = if quick { (160, 40, 0) } else { (2_400, 600, 60) };
+            let (c07, c18) = (id == "C07", id == "C18");
+            let mut a = report::par_acc(n2, |r| sb_checks::run_c07_c18(seed, r, &format!("{}-d2", id), c07, c18, 2, 1500));
+            a.merge(report::par_acc(n3, |r| sb_checks::run_c07_c18(seed, r, &format!("{}-d3", id), c07, c18, 3, 1500)));
+            if n4 > 0 {
+                a.merge(report::par_acc(n4, |r| sb_checks::run_c07_c18(seed, r, &format!("{}-d4", id), c07, c18, 4, 600)));
+            }
+            (a, n2 + n3 + n4)
+        }
+        "C12" => {
+            let n = if quick { 500 } else { 10_000 };
+            (report::par_acc(n, |r| sb_checks::run_c12(seed, r)), n)
+        }
+        "C11" => {
+            let n = if quick { 40_000 } else { 600_000 };
+            let bound = 3;
+            (report::par_acc(n, |r| sb_checks::run_c11(seed, r, bound)), n)
+        }
+        _ => (Acc::new(), 0),
+    };
+    let _ = &mut acc;
+    let (rule, level): (&str, &str) = match id {
+        "C07" => ("library positions (half with a game history in the repetition record); reference run with an unlimited clock cut at the first line of depth D+1 (D = 2 for 80% of the positions, 3 for 20%, plus D = 4 in thorough where null-move pruning is active); then the clock is made to expire at the k-th query for EVERY k in [0, K] when K <= 1500, otherwise all k <= 300, k within +-3 of every send / info boundary and 300 sampled k. Per k: no panic; boards handed back are a prefix of the reference's (exactly one legal first-in-ordering board when nothing completed); info lines are a prefix; repetition record unchanged; no sentinel in a score. An evaluation is one (position, k) execution. Non-trivial: distinct (position, k) with the expiry strictly inside the search (0 < k < K).", "fault_enumeration"),
+        "C18" => ("the same expiry enumeration as C07 (every k per position when K <= 1500); every info line of every execution is checked against the strict grammar, depth >= 1 and non-decreasing, mate != 0, |cp| <= 100000 and never the +-9999999/8 sentinel, first PV move referee-legal at the root, strictly increasing scores within a depth. Non-trivial: distinct (position, k) with 0 < k < K.", "fault_enumeration"),
+        "C12" => ("library positions with <= 45 root moves, with and without history (counts <= 2); the engine's last score of each completed depth 1..3 (unlimited clock) must equal max_m -negamax(child_m, d-1) of a plain full-window negamax written in the harness over the engine's own generator/evaluation/is_check with check extension, capture quiescence, mate and repetition scoring as leaf rules; the selected move must attain it. An evaluation is one (position, depth). Non-trivial: (position, depth) where the best move is not first in static ordering, a repetition draw or a check extension was met, or the value is a mate score.", "exploration"),
+        "C11" => ("small positions near mate/stalemate (generated K+heavy pieces vs K+few, endgame seeds, one or two plies before generated mates); classes by the referee mate solver; oracle: mate in one played once iteration 1 is done, no move into a mate in one once iteration 2 is done (when a safe move exists), every `score mate N` verified by the AND/OR solver up to the bound (3 quick, 4 thorough; beyond: counted unverified). Non-trivial: distinct positions in a mate/stalemate class.", "exploration"),
+        _ => ("", "exploration"),
+    };
+    let meta = CheckMeta {
+        id,
+        tier,
+        seed,
+        level,
+        rule,
+        assumptions: vec![
+            "with a monotonic clock every behaviour the search can observe is 'the first k queries in time, the rest out of time' for some k".into(),
+            "the reference run (unlimited clock) is anchored by C12 (depth <= 3 exact) and C18".into(),
+            "the referee is right (perft self-check at start)".into(),
+        ],
+        real_stub: real_stub_sb(),
+    };
+    let mut extra = Map::new();
+    extra.insert("runs".into(), json!(runs));
+    let ex = acc.counters.get("positions_enumerated_exhaustively").copied().unwrap_or(0);
+    if id == "C07" || id == "C18" {
+        extra.insert("exhaustive".into(), json!(false));
+        extra.insert("exhaustive_note".into(), json!(format!("{} of {} positions had every expiry point 0..K executed; positions themselves are sampled", ex, runs)));
+    }
+    report::finish_check(&meta, &acc, t0.elapsed().as_secs_f64(), extra)
+}
+
+pub fn run_c10(tier: &str, seed: u64) -> i32 {
+    let t0 = std::time::Instant::now();
+    let quick = tier == "quick";
+    let judge = sc::Judge::only("C10");
+    let n1: u64 = if quick { 8_000 } else { 150_000 };
+    let n2: u64 = if quick { 1_200 } else { 25_000 };
+    let mut acc = report::par_acc(n1, |r| {
+        let z = ZobristHasher::create_zobrist_hasher();
+        sc::run(seed, r, "C10", judge, &z, 60)
+    });
+    let rec_evals = acc.evals;
+    acc.merge(report::par_acc(n2, |r| sb_checks::run_c10_search(seed, r)));
+    let z = ZobristHasher::create_zobrist_hasher();
+    minimise_all(&mut acc, |v| if v.scenario["family"] == "SC" { sc::minimise(v, &z) } else { v.clone() });
+    let meta = CheckMeta {
+        id: "C10",
+        tier,
+        seed,
+        level: "exploration",
+        rule: "(i) histories with 0-100 repetitions of a there-and-back shuffle interleaved with ordinary (irreversible) moves are given to the real position handler (after a dirty table from an earlier command was cleared); the record must hold exactly the occurrence count of every position of the game (by the from-scratch key of the referee position) and nothing else. (ii) roots where the mover is at least a rook down by the engine's own evaluation and has a move into a position that already occurred 2, 3 or 4 times: the last score of every completed depth 1..3 must be >= 0. Non-trivial: (i) distinct histories in which some position occurs >= 2 times, (ii) distinct (root, count) cases.",
+        assumptions: vec!["the referee is right".into(), "zero-count entries left behind by remove_board_from_draw_table are treated as absent (behaviourally invisible)".into()],
+        real_stub: real_stub_sb(),
+    };
+    let mut extra = Map::new();
+    extra.insert("runs".into(), json!(n1 + n2));
+    extra.insert("record_evaluations".into(), json!(rec_evals));
+    report::finish_check(&meta, &acc, t0.elapsed().as_secs_f64(), extra)
+}
+
+pub fn run_c15(tier: &str, seed: u64) -> i32 {
+    let t0 = std::time::Instant::now();
+    let n: u64 = if tier == "quick" { 12_000 } else { 250_000 };
+    let parts = report::par_runs(n, report::workers(), |r| crate::c15::run(seed, r));
+    let mut acc = Acc::new();
+    let mut cli = vec![];
+    for (a, c) in parts {
+        acc.merge(a);
+        cli.extend(c);
+    }
+    let z = ZobristHasher::create_zobrist_hasher();
+    crate::c15::systematic(&mut acc, &z);
+    let bin = std::env::var("VERIF_REAL_BIN").unwrap_or_default();
+    let mut cli_done = false;
+    if !bin.is_empty() && std::path::Path::new(&bin).exists() {
+        // fixed strings first (the documented suspects), then the sampled ones
+        let mut fixed: Vec<(String, bool, bool)> = vec![
+            ("rnbqkbnr/pppppppp/8/8/8/8/PPPPPPPP/RNBQKBNR w KQkq - 0 256".into(), true, true),
+            ("rnbqkbnr/pppppppp/8/8/8/8/PPPPPPPP/RNBQKBNR w KQkq - 120 5949".into(), true, true),
+            ("rnbqkbnr/pppppppp/8/8/8/8/PPPPPPPP/RNBQKBNR w KQkq ee 0 1".into(), false, false),
+            ("rnbqkbnr/pppppppp/8/8/8/8/PPPPPPPP/RNBQKBNR w KQkq \u{e9} 0 1".to_string(), false, false),
+            ("".into(), false, false),
+            ("8/8/8/8/8/8/8/8".into(), false, false),
+        ];
+        fixed.extend(cli.into_iter().take(if tier == "quick" { 300 } else { 3000 }));
+        crate::c15::cli_stage(&bin, &fixed, &mut acc);
+        cli_done = true;
+    }
+    let meta = CheckMeta {
+        id: "C15",
+        tier,
+        seed,
+        level: "exploration",
+        rule: "(i) FENs printed by the referee from library positions with counters from {0,1,49,99,100,255,256,300,1000,5949,9999} must load field for field (and key for key); (ii) 24 corrupted variants per FEN (truncation, single-character substitute/insert/delete from an alphabet incl. digits 0/9, blanks, tab, multi-byte UTF-8; field drop/duplicate/swap; en-passant, counter, castling and placement-structure mutations) plus every truncation/deletion/substitution point of two fixed FENs go (a) to from_fen under catch_unwind, (b) through the real position-fen handler (a panic located in board.rs is a violation, the deliberate 'Got bad fen string' panic is not), (c) a sample of ~300 (3000 thorough) as --fen=<s> -T -d 1 to the real binary built from the working tree (must exit 0, print a message on rejection, run on legal FENs). Strings the referee reads as well-formed FENs of legal positions must be accepted and load faithfully. Non-trivial: distinct strings.",
+        assumptions: vec![
+            "strings are valid Unicode without NUL (they must be passable as a command-line argument)".into(),
+            "what the loader does with well-formed FENs of illegal positions is not judged".into(),
+        ],
+        real_stub: json!({"real": ["BoardState::from_fen", "Point::from_str", "uci::play_out_position", "the release binary (main.rs, clap) for the CLI clause"], "stub": [], "note": "input corruption on the one stream the engine has; no schedule in this property"}),
+    };
+    let mut extra = Map::new();
+    extra.insert("runs".into(), json!(n));
+    extra.insert("real_binary_stage_ran".into(), json!(cli_done));
+    let code = report::finish_check(&meta, &acc, t0.elapsed().as_secs_f64(), extra);
+    if !cli_done && code == 0 {
+        eprintln!("harness error: the real binary was not available (VERIF_REAL_BIN), the CLI clause was not checked");
+        return 2;
+    }
+    code
+}
+
 pub fn run_check(id: &str, tier: &str, seed: u64) -> i32 {
     match id {
+        "C15" => run_c15(tier, seed),
+        "C10" => run_c10(tier, seed),
+        "C07" | "C18" | "C12" | "C11" => run_sb_check(id, tier, seed),
         "C16" | "C17" => run_meta_check(id, tier, seed),
         "C01" | "C02" | "C04" | "C05" | "C13" => run_sc_check(id, tier, seed),
         "C03" | "C08" | "C09" => run_sa_check(id, tier, seed),
@@ -205,6 +354,40 @@ pub fn replay_file(path: &str) -> i32 {
         "SC" => {
             let z = ZobristHasher::create_zobrist_hasher();
             sc::replay(sc, &prop, &z)
+        }
+        "SB" => match prop.as_str() {
+            "C07" | "C18" => sb_checks::replay_expiry(sc, &prop),
+            _ => sb_checks::replay_game_check(sc, &prop),
+        },
+        "SA" => match sc["check"].as_str() {
+            Some("C17") => sa_meta::replay_c17(sc),
+            Some("C16") => sa_meta::replay_c16(sc),
+            _ => {
+                let mut j = sa_checks::Judge::default();
+                match prop.as_str() {
+                    "C03" => j.c03 = true,
+                    "C08" => j.c08 = true,
+                    _ => j.c09 = true,
+                }
+                sa_checks::replay(sc, j).0
+            }
+        },
+        "C15" => {
+            let mut a = Acc::new();
+            let z = ZobristHasher::create_zobrist_hasher();
+            let s = sc["fen"].as_str().unwrap_or("");
+            if sc["origin"] == "cli" {
+                let bin = std::env::var("VERIF_REAL_BIN").unwrap_or_else(|_| format!("{}/sim/target-real/release/walleye", report::verif_root()));
+                crate::c15::cli_stage(&bin, &[(s.to_string(), false, true)], &mut a);
+            } else {
+                crate::c15::judge_string(s, sc["origin"].as_str().unwrap_or("replay"), &mut a, 0, &z);
+            }
+            a
+        }
+        "C09" => {
+            let mut a = Acc::new();
+            crate::c09::check_line(sc["line"].as_str().unwrap_or("go"), &mut a, 0);
+            a
         }
         _ => {
             eprintln!("unknown scenario family {:?}", family);
